@@ -331,7 +331,7 @@ func c15Bls[
 			tryAgg := func(tag string, agg SG, skL []string, pkL []PK, mL [][]byte, popL []*popT, expect string) {
 				// quick: the honest aggregate and a rotating quarter of the tamperings (all of them in thorough)
 				tcount++
-				if !c.Thorough() && tag != "honest" && (tcount+rot+int(c.Seed))%4 != 0 {
+				if !c.Thorough() && tag != "honest" && tag != "foreign-pop" && (tcount+rot+int(c.Seed))%4 != 0 {
 					return
 				}
 				res := safely(func() string {
